@@ -189,6 +189,41 @@ func runCheck(id, tier string) int {
 		<-done
 	}
 
+	// a shard that died without a summary (killed from outside, runtime fatal
+	// error) is re-run once; if it dies again the check reports INFRA
+	if !timedOut {
+		var wg2 sync.WaitGroup
+		for i := range results {
+			mu.Lock()
+			dead := results[i].sum == nil && !stop
+			mu.Unlock()
+			if !dead {
+				continue
+			}
+			wg2.Add(1)
+			go func(i int) {
+				defer wg2.Done()
+				out := filepath.Join(scratch, fmt.Sprintf("out%d.json", i))
+				os.Remove(out)
+				cmd := exec.Command(cmds[i].Path, cmds[i].Args[1:]...)
+				cmd.Env = cmds[i].Env
+				cmd.Dir = scratch
+				o, err := cmd.CombinedOutput()
+				r := res{shard: i, err: err, out: "(second attempt) " + string(o)}
+				if bts, e := os.ReadFile(out); e == nil {
+					var s shardSummary
+					if json.Unmarshal(bts, &s) == nil {
+						r.sum = &s
+					}
+				}
+				mu.Lock()
+				results[i] = r
+				mu.Unlock()
+			}(i)
+		}
+		wg2.Wait()
+	}
+
 	agg := &shardSummary{Verdicts: map[string]int{}, Faults: map[string]int{}, Probes: map[string]int{}, Foreign: map[string]int{}, KnownHits: map[string]int{}, Strategies: map[string]int{}, Extra: map[string]int{}}
 	fingers := map[uint64]bool{}
 	infra := ""
